@@ -56,7 +56,7 @@ TRUSTED = ["scipy.stats.beta / gamma / bernoulli are trusted to sample from the 
            "the step 'two exact conditionals of a joint density => the marginal is invariant' (Gibbs sampling on a product "
            "space with densities) is cited, not formalised"]
 ASSUMPTIONS = ["exactness is stated for the uncensored Gamma draw (the 1e-10 floor is known finding F12)",
-               "1 <= K <= n as in the property's quantifier; K = 0 (prior draw) is modelled and checked separately; K >= 1 with "
+               "1 <= K <= n as in the property's quantifier; K = 0 (prior draw, floored at 1e-10 too) is modelled and checked separately; K >= 1 with "
                "n = 0 (only empty clones) is outside the quantifier (the code produces nan there)",
                "the target is p(alpha | K, n) ~ Gamma(a,b)(alpha) alpha^K Gamma(alpha)/Gamma(alpha+n), the alpha-conditional of the "
                "normalised CRP; FSCRPDistribution.log_p omits the alpha-only normaliser Gamma(alpha)/Gamma(alpha+n)"]
@@ -223,8 +223,12 @@ def judge_sample(ctx, case, a, b, alpha, K, n, log, ret, rng, model=True, tag=""
                 ctx.corr_fail(case, tag + "K = 0 parameters differ from the model", {"model": ans, "code": [sh, sc]})
             if not close(fq(ans["value"]), ret, 1e-15):
                 ctx.corr_fail(case, tag + "K = 0 returned value differs from the model", {"model": ans["value"], "code": ret})
-        if not close(ret, g["value"], 1e-15):
-            ctx.oracle_fail(case, tag + "K = 0: returned value is not the prior draw", SITE, {"kind": "post-processing"}, {"draw": g["value"], "ret": ret})
+        gd = float(g["value"])
+        if not close(ret, gd, 1e-15):
+            if gd < FLOOR and gd <= ret <= FLOOR * (1 + 1e-15):
+                ctx.stat("floor_hit_prior")
+            else:
+                ctx.oracle_fail(case, tag + "K = 0: returned value is not the prior draw", SITE, {"kind": "post-processing"}, {"draw": gd, "ret": ret})
         return
     ctx.stat("branch_mix")
     if seq != ["beta", "bernoulli", "gamma"]:
@@ -306,6 +310,15 @@ def floor_active():
     return _floor_probe["v"]
 
 
+def value_range(ctx, case, K, ret):
+    """the returned value must be usable as a concentration: finite and > 0 (log alpha is taken next)"""
+    ok = isinstance(ret, (float, np.floating)) and math.isfinite(ret) and ret > 0
+    if not ok:
+        kind = "prior-branch-returns-nonpositive" if K == 0 else "value-range"
+        ctx.oracle_fail(case, "sample() returned a non-positive or non-finite value", SITE, {"kind": kind}, {"ret": repr(ret), "K": K})
+    return ok
+
+
 def check_sample(ctx, case):
     a, b, alpha, K, n = case["a"], case["b"], case["alpha"], case["K"], case["n"]
     rng = np.random.default_rng(case["seed"])
@@ -325,13 +338,7 @@ def check_sample(ctx, case):
                         {"draws_so_far": [(r.get("dist"), [float(x) for x in r.get("args", ())]) for r in log]})
         ctx.done(case, nontrivial=(K >= 1))
         return
-    if not (isinstance(ret, (float, np.floating)) and math.isfinite(ret) and ret > 0):
-        if K == 0:
-            # outside the property's quantifier (1 <= K <= n): the prior branch has no floor and gamma.rvs(0.01, scale=100)
-            # underflows to 0.0 about once in 2000 calls (pinned in corpus/C13); recorded, reported, not judged by C13
-            ctx.stat("K0_returned_zero")
-        else:
-            ctx.oracle_fail(case, "sample() returned a non-positive or non-finite value", SITE, {"kind": "value-range"}, {"ret": repr(ret)})
+    value_range(ctx, case, K, ret)
     judge_sample(ctx, case, a, b, alpha, K, n, log, float(ret), rng)
     ctx.done(case, nontrivial=(K >= 1), sample={k: case[k] for k in ("kind", "a", "b", "alpha", "K", "n")})
 
@@ -400,11 +407,7 @@ def check_update(ctx, case):
             ctx.oracle_fail(case, "old value passed is not the value in force", SITE_UPD, {"kind": "old-value"}, {"passed": c["old"], "in_force": cur})
         new = float(c["ret"])
         judge_sample(ctx, case, case["a"], case["b"], float(c["old"]), c["K"], c["n"], c["log"], new, rng, tag="update: ")
-        if not (math.isfinite(new) and new > 0):
-            if c["K"] == 0:
-                ctx.stat("K0_returned_zero")
-            else:
-                ctx.oracle_fail(case, "sample() returned a non-positive or non-finite value", SITE, {"kind": "value-range"}, {"ret": repr(new)})
+        if not value_range(ctx, case, c["K"], new):
             break
         # the new value is in force on the shared prior object ...
         if tree_dist.prior is not prior_obj:
@@ -504,11 +507,7 @@ def check_chain(ctx, case):
             ctx.corr_fail(case, "the chain's concentration sampler does not use the chain's generator", None)
         judge_sample(ctx, case, c["a"], c["b"], float(c["old"]), c["K"], c["n"], c["log"], float(c["ret"]), c["rng"], tag="chain: ")
         cur = float(c["ret"])
-        if not (math.isfinite(cur) and cur > 0):
-            if c["K"] == 0:
-                ctx.stat("K0_returned_zero")
-            else:
-                ctx.oracle_fail(case, "sample() returned a non-positive or non-finite value", SITE, {"kind": "value-range"}, {"ret": repr(cur)})
+        if not value_range(ctx, case, c["K"], cur):
             ctx.done(case, nontrivial=False)
             return
         if not close(u["alpha_after"], cur, 1e-15) or not abs(u["log_alpha_after"] - math.log(cur)) <= 1e-12:
